@@ -194,6 +194,17 @@ def _splat_literal_tuples(tree: ast.AST) -> bool:
     """`t = (a, b)` (names / constants only, bound once) ... `f(.., *t)`: the call is `f(.., a, b)`; a `t` that is then unused is
     dropped.  Returns True if anything changed."""
     changed = False
+    # `f(*(a, b))` is `f(a, b)`
+    for c in ast.walk(tree):
+        if isinstance(c, ast.Call) and any(isinstance(a, ast.Starred) and isinstance(a.value, (ast.Tuple, ast.List)) and not any(isinstance(e, ast.Starred) for e in a.value.elts) for a in c.args):
+            na = []
+            for a in c.args:
+                if isinstance(a, ast.Starred) and isinstance(a.value, (ast.Tuple, ast.List)) and not any(isinstance(e, ast.Starred) for e in a.value.elts):
+                    na += list(a.value.elts)
+                else:
+                    na.append(a)
+            c.args = na
+            changed = True
     for fn in ast.walk(tree):
         if not isinstance(fn, (ast.FunctionDef, ast.AsyncFunctionDef)):
             continue
@@ -700,6 +711,69 @@ class Program:
         self._push_down_pulled_up()
         self.inliner = Inliner(self)
         self.inliner.run()
+        if not os.environ.get("PGF_NO_CALL_STYLES"):
+            self._respell_calls()
+
+    def _respell_calls(self) -> None:
+        """keyword <-> positional churn: calls to repository functions are re-spelled the way the reference tree spells them
+        (`call_styles.json`, written by tools/gen_call_styles.py from /repo: per callee the number of arguments every reference call
+        site passes positionally).  `restore_sol(x=a, y=b, d=c)` is `restore_sol(a, b, c)`; `SolverResult(p, x, y, d, s, n)` gets
+        its sixth argument back as `iterations=n`.  Nothing is evaluated in another order: Python evaluates positional arguments
+        before keyword arguments, so a call is only re-spelled when its arguments are side-effect free names / attributes /
+        constants / subscripts, or when their relative order does not change."""
+        import json as _json
+        path = os.path.join(os.path.dirname(os.path.abspath(__file__)), "call_styles.json")
+        try:
+            styles = _json.load(open(path))
+        except Exception:
+            return
+        for fi in list(self.functions.values()):
+            if getattr(fi, "absorbed", False):
+                continue
+            for c in list(own_nodes(fi.node)):
+                if not isinstance(c, ast.Call) or any(isinstance(a, ast.Starred) for a in c.args) or any(k.arg is None for k in c.keywords):
+                    continue
+                tg = []
+                for t in self.resolve_call_target(fi, c):
+                    if isinstance(t, ClassInfo):
+                        m = self.lookup_method(t, "__init__")
+                        if m is not None and m.module.name.startswith(PKG):
+                            tg.append(m)
+                    elif isinstance(t, FuncInfo):
+                        tg.append(t)
+                if not tg:
+                    continue
+                sigs = {tuple(p for p in t.params if p not in ("self", "cls")) for t in tg}
+                ns = {styles.get(t.qualname) for t in tg}
+                if len(sigs) != 1 or len(ns) != 1 or None in ns:
+                    continue
+                names, n = list(sigs.pop()), ns.pop()
+                if any(t.node.args.vararg or t.node.args.kwarg for t in tg):
+                    continue
+                if len(c.args) == n and all(k.arg not in names[:n] for k in c.keywords):
+                    continue      # already in the reference spelling
+                if len(c.args) > len(names) or any(k.arg not in names for k in c.keywords):
+                    continue
+                bound = {names[i]: a for i, a in enumerate(c.args)}
+                clash = False
+                for k in c.keywords:
+                    if k.arg in bound:
+                        clash = True
+                    bound[k.arg] = k.value
+                if clash or not all(nm in bound for nm in names[:n]):
+                    continue
+                old_order = [id(a) for a in c.args] + [id(k.value) for k in c.keywords]
+                new_args = [bound[nm] for nm in names[:n]]
+                new_kw = [(nm, bound[nm]) for nm in names[n:] if nm in bound]
+                new_order = [id(a) for a in new_args] + [id(v) for _, v in new_kw]
+
+                def pure(e):
+                    return all(isinstance(x, (ast.Name, ast.Attribute, ast.Constant, ast.Subscript, ast.Load, ast.UnaryOp, ast.USub, ast.Tuple, ast.Slice)) for x in ast.walk(e))
+                if old_order != new_order and not all(pure(bound[nm]) for nm in bound):
+                    continue
+                c.args = new_args
+                c.keywords = [ast.keyword(arg=nm, value=v) for nm, v in new_kw]
+                ast.fix_missing_locations(c)
 
     def _push_down_pulled_up(self) -> None:
         """pull-up refactorings: a method the pinned tree defined in class C that C now inherits from a base-class method which did
